@@ -36,6 +36,8 @@ type C16Case struct {
 	// backgrounds of the page box (colour 250) and of the root element, which becomes the canvas background (251)
 	PageBG bool `json:"page_bg,omitempty"`
 	RootBG bool `json:"root_bg,omitempty"`
+	// Pages: the several-pages scene (fixed boxes), judged on its own
+	Pages *C16Pages `json:"pages,omitempty"`
 }
 
 func c16GenBox(t *rapid.T, depth int, budget *int, many bool) C16Box {
@@ -79,6 +81,10 @@ func c16GenBox(t *rapid.T, depth int, budget *int, many bool) C16Box {
 
 func c16Gen(t *rapid.T, tier Tier) interface{} {
 	c := &C16Case{}
+	if rapid.IntRange(0, 11).Draw(t, "pages") == 0 {
+		c.Pages = c16GenPages(t)
+		return c
+	}
 	if rapid.IntRange(0, 3).Draw(t, "pagedeco") == 0 {
 		c.PageBG, c.RootBG = rapid.Bool().Draw(t, "pagebg"), rapid.Bool().Draw(t, "rootbg")
 	}
@@ -436,6 +442,9 @@ func c16Str(es []c16Event) string {
 
 func c16Check(ci interface{}) Verdict {
 	c := ci.(*C16Case)
+	if c.Pages != nil {
+		return c16CheckPages(c)
+	}
 	html, nodes := c16HTML(c)
 	if len(nodes) > 249 {
 		return Verdict{Excluded: "too-many-boxes-for-the-colour-code"}
